@@ -532,6 +532,40 @@ impl<const N: usize> OrSWotSet<N> {
     }
 }
 
+#[cfg(datacake_verif)]
+/// A read-only projection of the full internal state of a set.
+pub struct VerifProjection {
+    pub entries: Vec<(Key, HLCTimestamp)>,
+    pub dead: Vec<(Key, HLCTimestamp)>,
+    pub max_stamps: Vec<Vec<(u8, HLCTimestamp)>>,
+    pub safe_stamps: Vec<(u8, HLCTimestamp)>,
+}
+
+#[cfg(datacake_verif)]
+impl<const N: usize> OrSWotSet<N> {
+    /// Projects the internal state (sorted) for conformance checking.
+    pub fn verif_project(&self) -> VerifProjection {
+        let mut dead = Vec::from_iter(self.dead.iter().map(|(k, ts)| (*k, *ts)));
+        dead.sort();
+        VerifProjection {
+            entries: self.entries.iter().map(|(k, ts)| (*k, *ts)).collect(),
+            dead,
+            max_stamps: self
+                .versions
+                .nodes_max_stamps
+                .iter()
+                .map(|m| m.iter().map(|(n, ts)| (*n, *ts)).collect())
+                .collect(),
+            safe_stamps: self
+                .versions
+                .safe_last_stamps
+                .iter()
+                .map(|(n, ts)| (*n, *ts))
+                .collect(),
+        }
+    }
+}
+
 #[cfg(test)]
 mod tests {
     use std::time::Duration;
